@@ -588,7 +588,9 @@ def skiparms(rep, c, sfx):
         if kind(pat) != "PSlice":
             # catch-all: must defer to a function that does not use memchr
             calls = [callee(n) for n in walk(arm["body"]) if kind(n) in ("Call", "MethodCall")]
-            basic = [x for x in calls if isinstance(x, str) and x.startswith(POSITION + "::")]
+            # a search function of the position module (method of Position or free function next to it) with a loop
+            basic = [x for x in calls if isinstance(x, str) and (x.startswith(POSITION + "::") or x.startswith("pest::position::"))
+                     and c.fn(x) is not None and any(kind(y) == "Loop" for y in walk(c.fn(x)["body"]))]
             r.instance("arm:_", where(arm["body"]), "defers to %s" % basic)
             if not basic:
                 r.violation("arm:_", where(arm["body"]), "the fallback arm does not use the basic search")
@@ -672,8 +674,8 @@ def skipbasic(rep, c, sfx):
     # the basic search: the Position method reachable from skip_until that contains no memchr call and a for loop
     cands = []
     for (cal, n) in hirq.call_sites(su["body"]):
-        f = c.fn(cal)
-        if f is not None and f.get("impl_self") == POSITION and not any(
+        f = c.fn(cal) if isinstance(cal, str) else None
+        if f is not None and (f.get("impl_self") == POSITION or f["path"].startswith("pest::position::")) and not any(
                 isinstance(callee(x), str) and callee(x).startswith("memchr::") for x in walk(f["body"])) \
                 and any(kind(x) == "Loop" for x in walk(f["body"])):
             cands.append(f)
@@ -704,6 +706,14 @@ def skipbasic(rep, c, sfx):
         s, e = peel(f_.get("start", {})), peel(f_.get("end", {}))
         if kind(s) == "Field" and s["name"] == "pos" and kind(e) == "MethodCall" and e["m"] == "len":
             ok = True
+        # the search as a free function over (input, pos, ..): the start is the parameter that receives self.pos
+        if kind(s) == "Path" and s.get("res") == "local" and kind(e) == "MethodCall" and e["m"] == "len" and fn is not su:
+            pidx = [i for i, p in enumerate(fn["params"]) if p.get("k") == "PBind" and p["id"] == s["id"]]
+            sites = [n for (cal, n) in hirq.call_sites(su["body"]) if cal == fn["path"]]
+            if pidx and sites and all(
+                    pidx[0] < len(hirq.call_args(n)) and kind(peel(hirq.call_args(n)[pidx[0]])) == "Field"
+                    and peel(hirq.call_args(n)[pidx[0]])["name"] == "pos" for n in sites):
+                ok = True
     if not ok:
         r.violation("range", where(lp), "the scan does not range over self.pos..self.input.len()")
 
